@@ -160,7 +160,14 @@ func (fs *ReaderFS) readErr(r io.Reader) error {
 	case err := <-errs:
 		return err
 	case <-done:
-		return nil
+		// all background writers have finished: an error one of them reported must not be lost
+		// because both cases were ready
+		select {
+		case err := <-errs:
+			return err
+		default:
+			return nil
+		}
 	}
 }
 
